@@ -179,4 +179,99 @@ theorem pfRun_safe (N lin circ : Nat) (d : Dim) (nx ny hm steps : Nat) (hasExo :
       exact ⟨by simp, hbo⟩
   · split <;> simp [hrs]
 
+/-! ### `SUKFCorrection::getLikelihood()` against the noise covariance read at query time -/
+
+theorem sukfNoiseCov_cover_ok (rr sub : Nat) (reduced : Bool) (j m : Nat) (hj : j < m / sub)
+    (hrr : if reduced then rr = sub else m ≤ rr) :
+    (sukfNoiseCov rr sub reduced j).Safe ∧ (sukfNoiseCov rr sub reduced j).val = ⟨sub, sub⟩ := by
+  have b := div_block_le sub j m hj
+  unfold sukfNoiseCov
+  cases reduced with
+  | true => simp at hrr; simp [hrr]
+  | false => simp at hrr; simp; omega
+
+/-- the query on members `innovations_ : m × Ki`, `propagated_sigma_points_ : m × p` is safe whenever the noise covariance
+    read at query time still covers `m` rows (full mode) / is the `sub × sub` block (reduced mode) -/
+theorem sukfLikelihood_cover_safe (m Ki p rr sub : Nat) (reduced : Bool) (hsub : 0 < sub) (_hK : 0 < Ki)
+    (hrr : if reduced then rr = sub else m ≤ rr) : (sukfLikelihood ⟨m, Ki⟩ ⟨m, p⟩ rr sub reduced).Safe := by
+  unfold sukfLikelihood
+  split
+  · simp
+  · simp only [safe_bind, safe_pure, and_true, safe_forRange, val_bind]
+    refine ⟨by simp [hsub], ?_, ?_⟩
+    · intro i hi
+      have := sukfNoiseCov_cover_ok rr sub reduced i m hi hrr
+      have b := div_block_le' sub i m hi
+      simp [this.1, this.2]; omega
+    · intro i hi
+      have := gaussianDensityUVR_safe m (p / Ki) sub hsub
+      have hi' : i < Ki := by simpa using hi
+      have b1 : p / Ki * (i + 1) ≤ p / Ki * Ki := Nat.mul_le_mul_left _ (by omega)
+      have b2 : p / Ki * Ki ≤ p := Nat.div_mul_le_self p Ki
+      have b3 : p / Ki * (i + 1) = p / Ki * i + p / Ki := by rw [Nat.mul_succ]
+      simp [this.1, this.2, hi']; omega
+
+theorem likqMeas_valid (K sub m : Nat) (reduced : Bool) (hK : 1 ≤ K) (hm : 1 ≤ m) (hsub : 1 ≤ sub) :
+    sukfValid likqState K likqState K (likqMeas likqState m sub reduced) sub reduced := by
+  cases reduced <;> simp [sukfValid, corrValidCommon, likqMeas, likqState, Layout.noiseless, Layout.dcov, Layout.dim, Layout.cc] <;> omega
+
+/-- the query is safe on every member state a correction can leave, for a noise size that covers them -/
+theorem sukfLik_after_step (mem : SUKFMem) (K sub m rr : Nat) (reduced : Bool) (hK : 1 ≤ K) (hsub : 1 ≤ sub)
+    (hrr : if reduced then rr = sub else m ≤ rr)
+    (h : mem.inn = ⟨0, 0⟩ ∨ mem = ⟨⟨m, K⟩, ⟨m, (likqState.dcov * 2 + 1) * K⟩⟩) :
+    (sukfLikelihood mem.inn mem.prop rr sub reduced).Safe := by
+  rcases h with h | h
+  · rw [h]; simp [sukfLikelihood]
+  · rw [h]; exact sukfLikelihood_cover_safe m K _ rr sub reduced (by omega) (by omega) hrr
+
+theorem sukfLikQuery_safe (K sub m1 m2 : Nat) (reduced : Bool) (how : LikQHow) (hK : 1 ≤ K) (hm1 : 1 ≤ m1) (hm2 : 1 ≤ m2)
+    (hsub : 1 ≤ sub) (hc : likqCovered reduced m1 m2 how) : (sukfLikQuery K sub m1 m2 reduced how).Safe := by
+  have hs : sukfSupported likqState := by simp [sukfSupported, likqState]
+  have v1 := likqMeas_valid K sub m1 reduced hK hm1 hsub
+  have v2 := likqMeas_valid K sub m2 reduced hK hm2 hsub
+  obtain ⟨s1, c1⟩ := sukfStep_ok SUKFMem.init likqState K likqState K (likqMeas likqState m1 sub reduced) sub reduced v1 hs
+  have hO1 : (likqMeas likqState m1 sub reduced).O.dim = m1 := by simp [likqMeas, Layout.dim, Layout.cc]
+  have hO2 : (likqMeas likqState m2 sub reduced).O.dim = m2 := by simp [likqMeas, Layout.dim, Layout.cc]
+  have hr1 : (if reduced then (likqMeas likqState m1 sub reduced).rr = sub else m1 ≤ (likqMeas likqState m1 sub reduced).rr) := by
+    cases reduced <;> simp [likqMeas]
+  have hr2 : (if reduced then (likqMeas likqState m2 sub reduced).rr = sub else m2 ≤ (likqMeas likqState m2 sub reduced).rr) := by
+    cases reduced <;> simp [likqMeas]
+  -- the members after the first correction
+  have hmem : (sukfStep SUKFMem.init likqState K likqState K (likqMeas likqState m1 sub reduced) sub reduced).val.1.inn = ⟨0, 0⟩ ∨
+      (sukfStep SUKFMem.init likqState K likqState K (likqMeas likqState m1 sub reduced) sub reduced).val.1 =
+        ⟨⟨m1, K⟩, ⟨m1, (likqState.dcov * 2 + 1) * K⟩⟩ := by
+    rcases c1 with h | h | h
+    · left; rw [h]
+    · left; rw [h]
+    · right; rw [h, hO1]
+  unfold sukfLikQuery
+  simp only [safe_bind, val_bind, safe_pure, and_true]
+  refine ⟨s1, sukfLik_after_step _ K sub m1 _ reduced hK hsub hr1 hmem, ?_⟩
+  cases how with
+  | correct =>
+    simp only [safe_bind, val_bind, safe_pure, val_pure, and_true]
+    obtain ⟨s2, c2⟩ := sukfStep_ok (sukfStep SUKFMem.init likqState K likqState K (likqMeas likqState m1 sub reduced) sub reduced).val.1
+      likqState K likqState K (likqMeas likqState m2 sub reduced) sub reduced v2 hs
+    refine ⟨s2, sukfLik_after_step _ K sub m2 _ reduced hK hsub hr2 ?_⟩
+    rcases c2 with h | h | h
+    · left; rw [h]
+    · left; rw [h]
+    · right; rw [h, hO2]
+  | queryOnly =>
+    simp only [safe_pure, val_pure, true_and]
+    have hr : (if reduced then (likqMeas likqState m2 sub reduced).rr = sub else m1 ≤ (likqMeas likqState m2 sub reduced).rr) := by
+      rcases hc with h | h | h
+      · subst h; simp [likqMeas]
+      · cases h
+      · cases reduced <;> simp [likqMeas, h]
+    exact sukfLik_after_step _ K sub m1 _ reduced hK hsub hr hmem
+  | skippedCorrect =>
+    simp only [safe_pure, val_pure, true_and]
+    have hr : (if reduced then (likqMeas likqState m2 sub reduced).rr = sub else m1 ≤ (likqMeas likqState m2 sub reduced).rr) := by
+      rcases hc with h | h | h
+      · subst h; simp [likqMeas]
+      · cases h
+      · cases reduced <;> simp [likqMeas, h]
+    exact sukfLik_after_step _ K sub m1 _ reduced hK hsub hr hmem
+
 end BFL.Bounds
